@@ -24,6 +24,8 @@ Decided clauses:
   R10.7 every compiled stream backend carries its 64-bit block counter (C03's R3.2 engine: write-backs of the high word depend on
         the low word; no vector operation feeds a value derived from the high word alone into the state), so a backend that
         builds per-lane counters with 32-bit adds cannot silently diverge from the others when the low word wraps in a batch.
+  R10.8 the SSE2 and the portable crypto_verify_n both return a verdict that depends on every byte and combine the per-position
+        differences with OR only (C14's engine per configuration): XOR-accumulated block differences cancel in the SIMD build only.
 NOT decided: byte-identity of results across backends / build configurations (equivalence of
 implementations).
 """
@@ -399,6 +401,20 @@ def run(ctx, chk):
         def __getattr__(self, n):
             return getattr(self._c, n)
     c03.carry_rule(prog, _Renamed(chk))
+
+    # ---- R10.8 the SIMD and the portable crypto_verify_n agree on what "equal" means: both combine per-position differences with OR
+    # only (C14's R14.1 / R14.3 engine on this configuration's worker; the portable pass of the thorough tier runs it on the byte loop)
+    from . import c14
+
+    class _Renamed8(_Renamed):
+        def ob(self, rule, *a, **kw):
+            if "key" in kw and kw["key"]:
+                kw["key"] = "R10.8/" + kw["key"]
+            return self._c.ob("R10.8/" + rule, *a, **kw)
+
+        def floor(self, rule, *a, **kw):
+            return self._c.floor("R10.8/" + rule, *a, **kw)
+    c14.verify_rules(prog, _Renamed8(chk))
 
     # ---- R10.6 the portable AES block helpers use every bit of their integer operands (E11) ----------------------------------
     softaes_rule(ctx, prog, chk)
